@@ -104,7 +104,8 @@ def cases(draw):
     ops = [[draw(st.sampled_from(['d', 'd', 'd', 'r', 'p', 'c'])), draw(st.integers(0, 255)), draw(st.integers(0, 255))]
            for _ in range(draw(st.integers(0, 30)))]
     queries = draw(st.lists(st.sampled_from(['queue', 'pop', 'pop-twice', 'pop-unknown', 'pop-file-bad']), max_size=6))
-    poll = draw(st.one_of(st.booleans(), st.sampled_from([0, 1, 60000, 2 ** 31 - 1, 2 ** 31, 2 ** 40]).map(lambda v: {'interval': v})))
+    poll = draw(st.one_of(st.booleans(), st.sampled_from([0, 1, 60000, 2 ** 31 - 1, 2 ** 31, 2 ** 40]).map(lambda v: {'interval': v}),
+                          st.sampled_from(['dtn://s1/\x00', '', 'dtn://\u4e2d/']).map(lambda v: {'interval': 1000, 'nodeid': v})))
     return {'mtu': mtu, 'sends': sends, 'ops': ops, 'queries': queries, 'poll': poll}
 
 
@@ -160,6 +161,9 @@ def execute(case, out):
         ag = senders[1]
         simudp.NET.current_host = ag.host
         simudp.NET.current_owner = ag.name
+        odd_id = case['poll'].get('nodeid') if isinstance(case['poll'], dict) else None
+        if odd_id is not None:
+            ag.agent._config.node_id = odd_id     # what the polling peer calls itself
         with simloop.entered(ag.ctx):
             ag.agent._poll(poll_cfg, False)
     done = run_senders(list(senders.values()))
